@@ -11,6 +11,7 @@ import (
 	"github.com/0chain/common/core/currency"
 
 	"0chain.net/core/common"
+	"0chain.net/core/config"
 
 	"0chain.net/core/datastore"
 	"0chain.net/core/encryption"
@@ -59,7 +60,8 @@ func (gn *GlobalNode) Decode(input []byte) error {
 }
 
 func (gn *GlobalNode) updateConfig(fields map[string]string) error {
-	for key, value := range fields {
+	for _, key := range config.SortedKeys(fields) {
+		value := fields[key]
 		switch key {
 		case Settings[PourAmount]:
 			fAmount, err := strconv.ParseFloat(value, 64)
